@@ -4,3 +4,11 @@ HARNESSES = {
     'GradientPipelines': dict(split={'incr': 3}),
     'Logger': dict(split={'call': 26}),
 }
+
+BOUNDS = {
+    'SelectorStep': 'any styling call, adj/incr/colour symbolic, from any pair of states with selectors congruent modulo 64 (Renderer selectors arbitrary bytes)',
+    'Pipelines': 'K symbolic styling calls (quick 2, thorough 3) then a 3-operation path painted with the resulting registers',
+    'GradientPipelines': 'SetCSel(any), 0..2 incrementing register writes, SetLinearGradient, a path',
+    'Logger': 'every method once with arbitrary arguments',
+}
+OUTSIDE = 'longer histories as a whole (SelectorStep is inductive; the rest composes with C01 and C04)'
